@@ -639,14 +639,20 @@ def cons_run(ctx):
         for rev in (4, 3):
             M.tlc_model(ctx, "Construct", cons_cfg(kind, rev, maxcli), "cons_%s_%d" % (kind, rev))
     sens = {}
+    devbehs = []
     for dev, inv in CONS_DEVS:
         for rev in (4, 3):
-            sens["%s/%s/rev%d" % (dev, inv, rev)] = M.tlc_expect_violation(
-                ctx, "Construct", cons_cfg("stream", rev, 2, inv=inv, dev='{"%s"}' % dev), "cons_dev_%s_%s_%d" % (dev, inv, rev), inv)
+            ok = M.tlc_expect_violation(ctx, "Construct", cons_cfg("stream", rev, 2, inv=inv, dev='{"%s","fullhist"}' % dev),
+                                        "cons_dev_%s_%s_%d" % (dev, inv, rev), inv)
+            sens["%s/%s/rev%d" % (dev, inv, rev)] = ok
+            if ok and ctx.last_counterexample:
+                b = ctx.last_counterexample
+                b[0]["rev"] = rev
+                devbehs.append(b)                        # the schedule on which a regression would show: replayed as well
     ctx.extra["constructor_deviations_detected"] = sens
     if not all(sens.values()):
         raise M.Inconclusive("Construct.tla is not sensitive to %s" % [k for k, v in sens.items() if not v])
-    behs = []
+    behs = devbehs
     for rev in (4, 3):
         d = M.tlc_dir(ctx, "g_cons%d" % rev)
         M.write_cfg(d, "g", cons_cfg("stream", rev, 2, inv="TypeOK", view=False))
@@ -677,6 +683,71 @@ def cons_run(ctx):
     return v, M.read_trace(trace)
 
 
+# ---- Upgrade.tla: several upgrade candidates of one session (admission tests | MaybeUpgrade | probe | upgrade packet | switch)
+UPGR_INV = "TypeOK C08_OneAtATime C08_NoneAfterSwitch C08_AtMostOnce C08_SwitchKept C08_FlagMeansCandidate"
+UPGR_DEVS = [("NoCAS", "C08_OneAtATime"), ("NoCAS", "C08_FlagMeansCandidate"), ("SwitchWindow", "C08_AtMostOnce"),
+             ("SwitchWindow", "C08_NoneAfterSwitch"), ("SwitchWindow", "C08_SwitchKept")]
+
+
+def upgr_cfg(cands, inv=UPGR_INV, dev="{}", view=True):
+    return ("SPECIFICATION Spec\nCONSTANTS Cands = %s Deviations = %s\n%sINVARIANTS %s\nCHECK_DEADLOCK FALSE\n"
+            % (cands, dev, "VIEW view\n" if view else "", inv))
+
+
+def upgr_run(ctx):
+    """model-check Upgrade.tla, check that each deviation - the code before fixes 5b8a3bd / 37e01be - violates its invariants, replay every
+    transition into the real server (the candidates' goroutines held at upgrade.gated and upgrade.switching) with flags, transport,
+    number of switches and the candidates' connections compared after every step, judge the traces with EioMon."""
+    q = ctx.quick
+    M.tlc_model(ctx, "Upgrade", upgr_cfg('{"a","b"}'), "upgr_ab")
+    M.tlc_model(ctx, "Upgrade", upgr_cfg('{"a","b","c"}'), "upgr_abc")
+    if not q:
+        M.tlc_model(ctx, "Upgrade", upgr_cfg('{"a","b","c","d"}'), "upgr_abcd", timeout=1800)
+    sens = {}
+    devbehs = []
+    for dev, inv in UPGR_DEVS:
+        ok = M.tlc_expect_violation(ctx, "Upgrade", upgr_cfg('{"a","b"}', inv=inv, dev='{"%s","fullhist"}' % dev),
+                                    "upgr_dev_%s_%s" % (dev, inv), inv)
+        sens["%s/%s" % (dev, inv)] = ok
+        if ok and ctx.last_counterexample:
+            devbehs.append(ctx.last_counterexample)      # the schedule on which a regression would show: replayed as well
+    ctx.extra["upgrade_deviations_detected"] = sens
+    if not all(sens.values()):
+        raise M.Inconclusive("Upgrade.tla is not sensitive to %s" % [k for k, v in sens.items() if not v])
+    d = M.tlc_dir(ctx, "g_upgr")
+    M.write_cfg(d, "g", upgr_cfg('{"a","b","c"}', inv="TypeOK", view=False))
+    rc, out = M.sh(["tlc", "-workers", "4", "-metadir", os.path.join(d, "meta"), "-dump", "dot,actionlabels", os.path.join(d, "graph"),
+                    "-config", "g.cfg", "Upgrade.tla"], cwd=d, timeout=900)
+    if rc == 124 or "Model checking completed. No error" not in out:
+        raise M.Inconclusive("state graph dump of Upgrade.tla failed (see %s)" % d)
+    outp = os.path.join(ctx.work, "cover_upgr.json")
+    rc, o2 = M.sh([sys.executable, os.path.join(M.ROOT, "tools", "tcover.py"), os.path.join(d, "graph.dot"), outp, "45", "0", "upgrade"], timeout=900)
+    if rc != 0:
+        raise M.Inconclusive("tcover failed for Upgrade: %s" % o2[-500:])
+    info = json.loads(o2.strip().splitlines()[-1])
+    os.remove(os.path.join(d, "graph.dot"))
+    shutil.rmtree(os.path.join(d, "meta"), ignore_errors=True)
+    ctx.extra.setdefault("transition_cover", {})["upgrade_candidates"] = info
+    ctx.states += info["states"]
+    ctx.transitions += info["transitions"]
+    behs = devbehs + json.load(open(outp))
+    ctx.extra["behaviours_replayed"] = ctx.extra.get("behaviours_replayed", 0) + len(behs)
+    trace, summ = M.go_family(ctx, "upgr", behaviours=behs, timeout=3000)
+    v, lines = M.tlc_trace(ctx, "EioMon", MON_EIO_CFG, "upgr", trace, timeout=3000)
+    ctx.traces += summ.get("stats", {}).get("scenarios", 0)
+    ctx.events += lines
+    return v, M.read_trace(trace)
+
+
+@prop("XUPGR")
+def xupgr(ctx):
+    """development aid: ./check XUPGR   - the Upgrade.tla pipeline alone"""
+    v, evs = upgr_run(ctx)
+    M.classify(ctx, v)
+    ctx.assumptions = ENG_ASSUME
+    return M.finish(ctx, rule=ENG_RULE, evs=evs)
+
+
 @prop("XCONS")
 def xcons(ctx):
     """development aid: ./check XCONS   - the Construct.tla pipeline alone"""
@@ -686,10 +757,14 @@ def xcons(ctx):
     return M.finish(ctx, rule=ENG_RULE, evs=evs)
 
 
-def eng_prop(pid, fams, extra=(), nq=60, nt=900, race=False, reg=False, cons=False):
+def eng_prop(pid, fams, extra=(), nq=60, nt=900, race=False, reg=False, cons=False, upgr=False):
     @prop(pid)
     def f(ctx):
         evs = eng_run(ctx, fams, nq, nt, extra)
+        if upgr:
+            v, uevs = upgr_run(ctx)
+            M.classify(ctx, v)
+            evs = evs + uevs
         if cons:
             v, cevs = cons_run(ctx)
             M.classify(ctx, v)
@@ -723,7 +798,7 @@ def c07(ctx):
                                     "'the server sends a ping' is timed by the packetCreate event of the ping"]
     return M.finish(ctx, rule="timed heartbeat model Beat.tla checked exhaustively over a grid of pong delays incl. the deadline; real sessions "
                     "(polling and websocket, revisions 3 and 4, 9 interval/timeout pairs) driven on the same grid under the virtual clock", evs=evs)
-eng_prop("C08", ["upg"], extra=("direct",), nq=90)
+eng_prop("C08", ["upg"], extra=("direct",), nq=90, upgr=True)
 eng_prop("C11", ["poll", "dreq"], extra=("direct",), nq=90)
 eng_prop("C12", ["life", "poll"], extra=("grace", "direct"), reg=True)
 eng_prop("C18", ["flow"], extra=("reent", "direct"), nq=90)
